@@ -45,6 +45,15 @@ def peptides_event(pp, tid, A, rule, mc, semi, conserve, rnd, generator=None):
     # ONE protein object for every object-input digest of this event; it has already been weighed and composed
     # (the usual first questions about a protein) - neither may matter for what a digest returns
     shared = anngen.build(pp, A)
+    if len(A["internal"]) >= 2 and len(text) % 2:
+        # the same protein, its residue modifications attached right to left (the object stores them in that order)
+        import copy
+        from peptacular.proforma.proforma_dataclasses import Mod
+        A0 = copy.deepcopy(A)
+        A0["internal"] = []
+        shared = anngen.build(pp, A0)
+        for e_ in reversed(A["internal"]):
+            shared.add_internal_mod(e_["i"], [Mod(anngen.pyval(m_["v"]), m_["m"]) for m_ in e_["mods"]], append=True)
     call(lambda: pp.mass(shared, charge=0))
     call(lambda: pp.comp(shared, estimate_delta=True))
     call(lambda: pp.condense_static_mods(shared))
